@@ -49,18 +49,20 @@ def stack_case(height, depth, heur, calg, k=6):
         rec["outcome"] = "error"
         rec["detail"] = "refused at construction: %s: %s" % (type(e).__name__, str(e)[:120])
         return rec
-    # red-zone canaries: every stack becomes a view into a larger sentinel-filled buffer
+    # red-zone canaries: every stack becomes a view (of its OWN allocated height) into a larger sentinel-filled buffer
     phys = s.shr_domains_stack.shape[0]
-    rec["physical_rows"] = phys
+    physu = s.dom_update_stack.shape[0]
+    physf = s.not_entailed_propagators_stack.shape[0]
+    rec["physical_rows"] = [phys, physu, physf]
     big = np.full((phys + GUARD,) + s.shr_domains_stack.shape[1:], SENT, dtype=np.int32)
     big[:phys] = s.shr_domains_stack
     s.shr_domains_stack = big[:phys]
-    bigu = np.full((phys + GUARD, 2), 60001, dtype=np.uint16)
-    bigu[:phys] = s.dom_update_stack
-    s.dom_update_stack = bigu[:phys]
-    bigf = np.zeros((phys + GUARD, s.not_entailed_propagators_stack.shape[1]), dtype=bool)
-    bigf[:phys] = s.not_entailed_propagators_stack
-    s.not_entailed_propagators_stack = bigf[:phys]
+    bigu = np.full((physu + GUARD, 2), 60001, dtype=np.uint16)
+    bigu[:physu] = s.dom_update_stack
+    s.dom_update_stack = bigu[:physu]
+    bigf = np.zeros((physf + GUARD, s.not_entailed_propagators_stack.shape[1]), dtype=bool)
+    bigf[:physf] = s.not_entailed_propagators_stack
+    s.not_entailed_propagators_stack = bigf[:physf]
     sols = []
     tops = []
     try:
@@ -72,13 +74,20 @@ def stack_case(height, depth, heur, calg, k=6):
         rec["raised"] = None
     except Exception as e:
         rec["raised"] = "%s: %s" % (type(e).__name__, str(e)[:120])
-    guard_hit = bool(np.any(big[phys:] != SENT)) or bool(np.any(bigu[phys:] != 60001)) or bool(np.any(bigf[phys:]))
-    rec["guard_rows_touched"] = int(np.sum(np.any(big[phys:] != SENT, axis=(1, 2))))
+    hit_d = bool(np.any(big[phys:] != SENT))
+    hit_u = bool(np.any(bigu[physu:] != 60001))
+    hit_f = bool(np.any(bigf[physf:]))
+    guard_hit = hit_d or hit_u or hit_f
+    rec["guard_rows_touched"] = int(np.sum(np.any(big[phys:] != SENT, axis=(1, 2)))) + int(
+        np.sum(np.any(bigu[physu:] != 60001, axis=1))) + int(np.sum(np.any(bigf[physf:], axis=1)))
+    rec["guard_hit_in"] = [n for n, h in (("shr_domains_stack", hit_d), ("dom_update_stack", hit_u),
+                                          ("not_entailed_propagators_stack", hit_f)) if h]
     rec["max_top_seen"] = max(tops) if tops else None
     exp = _expected_first(n, heur, min(k, 2 ** min(n, 20)))
     if guard_hit:
         rec["outcome"] = "canary"
-        rec["detail"] = "%d guard rows beyond the %d allocated rows were written" % (rec["guard_rows_touched"], phys)
+        rec["detail"] = "%d guard row(s) beyond the allocated rows %r of %r were written" % (
+            rec["guard_rows_touched"], rec["physical_rows"], rec["guard_hit_in"])
     elif rec["raised"]:
         rec["outcome"] = "error"
         rec["detail"] = rec["raised"]
